@@ -48,6 +48,47 @@ def encapsulee_name(enc: dict):
     return NamespaceIds(ids)
 
 
+def malformed_variant(doc: dict) -> dict:
+    """A copy of the document with an interface added to its innermost first namespace whose
+    out-event replies bool - something the parser always refuses."""
+    bad = json.loads(json.dumps(doc))
+    bad_itf = {'<class>': 'interface', 'name': {'<class>': 'scope_name', 'ids': ['QZRefused']},
+               'types': {'<class>': 'types', 'elements': []},
+               'events': {'<class>': 'events', 'elements': [
+                   {'<class>': 'event', 'name': 'qz', 'direction': 'out',
+                    'signature': {'<class>': 'signature',
+                                  'type_name': {'<class>': 'scope_name', 'ids': ['bool']},
+                                  'formals': {'<class>': 'formals', 'elements': []}}}]}}
+    where = bad
+    while True:
+        inner = next((e for e in where.get('elements', []) if isinstance(e, dict)
+                      and e.get('<class>') == 'namespace'), None)
+        if inner is None:
+            break
+        where = inner
+    where.setdefault('elements', []).append(bad_itf)
+    return bad
+
+
+def parse_after_refusal(text: str, verbose: bool = False):
+    """Parse `text` with a parser object that has just refused another document (a variant of
+    the same one with a fault deep inside its namespaces) - what a tool does that keeps one
+    parser and reports errors per file."""
+    import tempfile  # pylint: disable=import-outside-toplevel
+    from dznpy.json_ast import DznJsonAst  # pylint: disable=import-outside-toplevel
+    parser = DznJsonAst(json.dumps(malformed_variant(json.loads(text))), verbose=verbose)
+    try:
+        parser.process()
+    except Exception:  # pylint: disable=broad-except
+        pass
+    with tempfile.NamedTemporaryFile('w', suffix='.json', delete=False) as fh:
+        fh.write(text)
+    try:
+        return parser.load_file(fh.name).process()
+    finally:
+        os.unlink(fh.name)
+
+
 def make_select(sel, order_seed: Optional[int] = None, pool: Optional[dict] = None):
     """A PortSelect for the encoded selection.  With `pool`, equal selections share one object
     across configurations - the way a user builds several configurations from the same pieces."""
